@@ -316,7 +316,15 @@ pub fn run(args: &[&str]) -> String {
         Some(false) if name != "ok" => Some(format!("status-report-wrong:not a member of the issuer's own service but {} (a service of another DID shares the fragment)", name)),
         _ => None,
       };
-      with(format!("u:{}", name), f)
+      let obs = match name {
+        "ok" => "ok",
+        "Revoked" => "revoked",
+        "InvalidStatus" => "invalid-status",
+        "DocumentMismatch" => "document-mismatch",
+        "ServiceLookupError" => "service-lookup",
+        _ => "other-error",
+      };
+      with(obs.to_string(), f)
     }
     Some("statusm") if args.len() == 5 => {
       let (Some(i), Some(a), Some(b)) = (args[2].parse::<u32>().ok(), nats(args[3]), nats(args[4])) else { return "bad-request".into() };
